@@ -24,7 +24,10 @@ WALK2 = cfg(InitTree="T3", Names={"a"}, Specials={"..", "../cs", "a/b", "", ".",
 MUT = cfg(InitTree="T3", Names={"a", "x"}, Fids={1}, Specials={"..", "../x", "a/b", "../cs", "../../x", "/../x", ""},
           AttachNames={"", "a"}, RenameNames={"x", "../x", "../../x", "/../x", "/x", "../cs", "a/../../x", ".."}, MaxWalk=1,
           Ops={"Attach", "Walk", "Clunk", "Create", "Rename", "Remove"}, CreateKinds={"F", "D", "L"}, LinkTargets={"zz"}, MaxIds=11)
-MUT2 = dict(MUT, Fids={1, 2}, CreateKinds={"F", "D", "L", "H"}, RenameNames=MUT["RenameNames"] | {"../../../ca", "/../../ca", "../cd/cf"})
+# every create kind, the kinds that create nothing included, with every name of a small grammar at every depth
+CREATEK = cfg(InitTree="T3", Names={"a"}, Fids={1}, Specials={"..", "../cs"}, AttachNames={""}, MaxWalk=1,
+              Ops={"Attach", "Walk", "Clunk", "Create"}, CreateKinds={"F", "D", "L", "P"}, LinkTargets={"zz"}, MaxIds=11)
+MUT2 = dict(MUT, Fids={1, 2}, CreateKinds={"F", "D", "L", "H", "P"}, RenameNames=MUT["RenameNames"] | {"../../../ca", "/../../ca", "../cd/cf"})
 
 
 def run(ctx):
@@ -40,6 +43,8 @@ def run(ctx):
         fam.replay("c18walk2", b2, WALK2, dotu=False)
         b3 = fam.simulate("c18mut-sim", MUT2, num=250, depth=16)
         fam.replay("c18mut", b3, MUT2, dotu=True)
+        b4 = fam.tour("c18createk", CREATEK, sample_edges=None)
+        fam.replay("c18createk", b4, CREATEK, dotu=True)
         fam.random(cases=8, steps=120)
     else:
         b1 = fam.tour("c18walk1", WALK1, sample_edges=20000)
@@ -49,6 +54,8 @@ def run(ctx):
         fam.replay("c18walk2", b2, WALK2, dotu=True)
         b3 = fam.tour("c18mut", MUT, sample_edges=14000)
         fam.replay("c18mut", b3, MUT, dotu=True)
+        b5 = fam.tour("c18createk", CREATEK, sample_edges=None)
+        fam.replay("c18createk", b5, CREATEK, dotu=True)
         b4 = fam.simulate("c18mut2-sim", MUT2, num=1200, depth=20)
         fam.replay("c18mut2", b4, MUT2, dotu=True)
         fam.random(cases=100, steps=250)
